@@ -82,11 +82,11 @@ package geometry
 //@ spec func zcross(a Point, b Point, c Point) real { (b.X-a.X)*(c.Y-b.Y) - (b.Y-a.Y)*(c.X-b.X) }
 // the neighbour selection of the code (cyclic successor and second successor)
 //@ spec func nxt(ps []Point, i int) Point { ite(i == len(ps)-1, ps[0], ps[i+1]) }
-//@ spec func nxt2(ps []Point, i int) Point { ite(i == len(ps)-1, ps[1], ite(i == len(ps)-2, ps[0], ps[i+2])) }
-//@ spec func turnCode(ps []Point, i int) real { zcross(ps[i], nxt(ps,i), nxt2(ps,i)) }
+//@ spec func nxt2(ps []Point, cl bool, i int) Point { ite(i == len(ps)-1, ps[1], ite(i == len(ps)-2, ite(cl && ps[len(ps)-1] == ps[0], ps[1], ps[0]), ps[i+2])) }
+//@ spec func turnCode(ps []Point, cl bool, i int) real { zcross(ps[i], nxt(ps,i), nxt2(ps,cl,i)) }
 //@ spec func trapTerm(ps []Point, i int) real { (nxt(ps,i).X - ps[i].X) * (nxt(ps,i).Y + ps[i].Y) }
-//@ spec func hasNegCode(ps []Point, k int) bool rec { k > 0 && (hasNegCode(ps,k-1) || turnCode(ps,k-1) < 0) }
-//@ spec func hasPosCode(ps []Point, k int) bool rec { k > 0 && (hasPosCode(ps,k-1) || turnCode(ps,k-1) > 0) }
+//@ spec func hasNegCode(ps []Point, cl bool, k int) bool rec { k > 0 && (hasNegCode(ps,cl,k-1) || turnCode(ps,cl,k-1) < 0) }
+//@ spec func hasPosCode(ps []Point, cl bool, k int) bool rec { k > 0 && (hasPosCode(ps,cl,k-1) || turnCode(ps,cl,k-1) > 0) }
 //@ spec func trapCode(ps []Point, k int) real rec { ite(k <= 0, 0, trapCode(ps,k-1) + trapTerm(ps,k-1)) }
 //@ spec func extend(r Rect, p Point) Rect { mkRect(mkPoint(min(r.Min.X,p.X), min(r.Min.Y,p.Y)), mkPoint(max(r.Max.X,p.X), max(r.Max.Y,p.Y))) }
 //@ spec func bboxOf(ps []Point, k int) Rect rec { ite(k <= 1, mkRect(ps[0], ps[0]), extend(bboxOf(ps,k-1), ps[k-1])) }
@@ -105,8 +105,8 @@ package geometry
 //@ lemma bridgeOpen(ps []Point, k int)
 //@   props C18
 //@   requires len(ps) >= 3 && ps[len(ps)-1] != ps[0] && 0 <= k && k <= len(ps)
-//@   ensures Neg: hasNegCode(ps,k) == hasNegP(ps,len(ps),k)
-//@   ensures Pos: hasPosCode(ps,k) == hasPosP(ps,len(ps),k)
+//@   ensures Neg: hasNegCode(ps,true,k) == hasNegP(ps,len(ps),k)
+//@   ensures Pos: hasPosCode(ps,true,k) == hasPosP(ps,len(ps),k)
 //@   ensures Trap: trapCode(ps,k) == trapP(ps,len(ps),k)
 //@   induction k
 
@@ -114,23 +114,23 @@ package geometry
 //@ lemma bridgeClosed(ps []Point, k int)
 //@   props C18
 //@   requires len(ps) >= 3 && ps[len(ps)-1] == ps[0] && 0 <= k && k <= len(ps)-1
-//@   ensures Neg: hasNegCode(ps,k) == hasNegP(ps,len(ps)-1,k)
-//@   ensures Pos: hasPosCode(ps,k) == hasPosP(ps,len(ps)-1,k)
+//@   ensures Neg: hasNegCode(ps,true,k) == hasNegP(ps,len(ps)-1,k)
+//@   ensures Pos: hasPosCode(ps,true,k) == hasPosP(ps,len(ps)-1,k)
 //@   ensures Trap: trapCode(ps,k) == trapP(ps,len(ps)-1,k)
 //@   induction k
 // ... and the last code triple / edge (at the duplicate point) contributes nothing
 //@ lemma bridgeClosedLast(ps []Point)
 //@   props C18
 //@   requires len(ps) >= 3 && ps[len(ps)-1] == ps[0]
-//@   ensures Neg: hasNegCode(ps,len(ps)) == hasNegCode(ps,len(ps)-1)
-//@   ensures Pos: hasPosCode(ps,len(ps)) == hasPosCode(ps,len(ps)-1)
+//@   ensures Neg: hasNegCode(ps,true,len(ps)) == hasNegCode(ps,true,len(ps)-1)
+//@   ensures Pos: hasPosCode(ps,true,len(ps)) == hasPosCode(ps,true,len(ps)-1)
 //@   ensures Trap: trapCode(ps,len(ps)) == trapCode(ps,len(ps)-1)
 
 //@ func processPoints
 //@   props C18 C11
 //@   requires ExactSums: forall k int :: 0 <= k && k < len(points) ==> abs(trapCode(points,k) + trapTerm(points,k)) < pow53()
 //@   ensures Empty: ((closed && len(points) < 3) || len(points) < 2) ==> (!convex && !clockwise && rect == mkRect(mkPoint(0,0), mkPoint(0,0)))
-//@   ensures ConvexCode: !((closed && len(points) < 3) || len(points) < 2) ==> convex == !(hasNegCode(points, len(points)) && hasPosCode(points, len(points)))
+//@   ensures ConvexCode: !((closed && len(points) < 3) || len(points) < 2) ==> convex == !(hasNegCode(points,closed,len(points)) && hasPosCode(points,closed,len(points)))
 //@   ensures ClockwiseCode: !((closed && len(points) < 3) || len(points) < 2) ==> clockwise == (trapCode(points, len(points)) > 0)
 //@   ensures Convex: closed && len(points) >= 3 ==> convex == !(hasNegP(points, ringM(points), ringM(points)) && hasPosP(points, ringM(points), ringM(points)))
 //@   ensures Clockwise: closed && len(points) >= 3 ==> clockwise == (trapP(points, ringM(points), ringM(points)) > 0)
@@ -141,6 +141,6 @@ package geometry
 //@   loop 0 invariant Range: 0 <= i && i <= len(points) && len(points) >= 2
 //@   loop 0 invariant Box: i > 0 ==> rect == bboxOf(points, i) && rect.Min.X <= rect.Max.X && rect.Min.Y <= rect.Max.Y
 //@   loop 0 invariant Sum: cwc == trapCode(points, i)
-//@   loop 0 invariant Concave: concave == (hasNegCode(points,i) && hasPosCode(points,i))
-//@   loop 0 invariant Dir: !concave ==> ((dir == 0 && !hasNegCode(points,i) && !hasPosCode(points,i)) || (dir == 1 && hasPosCode(points,i) && !hasNegCode(points,i)) || (dir == -1 && hasNegCode(points,i) && !hasPosCode(points,i)))
+//@   loop 0 invariant Concave: concave == (hasNegCode(points,closed,i) && hasPosCode(points,closed,i))
+//@   loop 0 invariant Dir: !concave ==> ((dir == 0 && !hasNegCode(points,closed,i) && !hasPosCode(points,closed,i)) || (dir == 1 && hasPosCode(points,closed,i) && !hasNegCode(points,closed,i)) || (dir == -1 && hasNegCode(points,closed,i) && !hasPosCode(points,closed,i)))
 //@   loop 0 decreases len(points) - i
